@@ -27,6 +27,11 @@ theorem lsBody_spec (src : Graph) (op : SOp) (o : Obj) (st : St) (hc : Coherent 
   | lockW => exact ⟨rfl, rfl, ⟨h1, h2, h3, h4, h5⟩, ⟨l1, l2, l3⟩⟩
   | lockR => exact ⟨rfl, rfl, ⟨h1, h2, h3, h4, h5⟩, ⟨l1, l2, l3⟩⟩
   | unlock => exact ⟨rfl, rfl, ⟨h1, h2, h3, h4, h5⟩, ⟨l1, l2, l3⟩⟩
+  | lockTok good => exact ⟨rfl, rfl, ⟨h1, h2, h3, h4, h5⟩, ⟨l1, l2, l3⟩⟩
+  | leave => exact ⟨rfl, rfl, ⟨h1, h2, h3, h4, h5⟩, ⟨l1, l2, l3⟩⟩
+  | dontLeave => exact ⟨rfl, rfl, ⟨h1, h2, h3, h4, h5⟩, ⟨l1, l2, l3⟩⟩
+  | ownerLock => exact ⟨rfl, rfl, ⟨h1, h2, h3, h4, h5⟩, ⟨l1, l2, l3⟩⟩
+  | ownerUnlock => exact ⟨rfl, rfl, ⟨h1, h2, h3, h4, h5⟩, ⟨l1, l2, l3⟩⟩
   | tip =>
     simp only [lsBody, specBody]
     rw [cReadTip_coh o.own st h1]
@@ -106,6 +111,11 @@ theorem rsBody_spec (v : Variant) (src : Graph) (ex : List RevId) (op : SOp) (o 
   | lockW => exact ⟨rfl, rfl, ⟨h1, h2, h3, h4, h5⟩, ht'⟩
   | lockR => exact ⟨rfl, rfl, ⟨h1, h2, h3, h4, h5⟩, ht'⟩
   | unlock => exact ⟨rfl, rfl, ⟨h1, h2, h3, h4, h5⟩, ht'⟩
+  | lockTok good => exact ⟨rfl, rfl, ⟨h1, h2, h3, h4, h5⟩, ht'⟩
+  | leave => exact ⟨rfl, rfl, ⟨h1, h2, h3, h4, h5⟩, ht'⟩
+  | dontLeave => exact ⟨rfl, rfl, ⟨h1, h2, h3, h4, h5⟩, ht'⟩
+  | ownerLock => exact ⟨rfl, rfl, ⟨h1, h2, h3, h4, h5⟩, ht'⟩
+  | ownerUnlock => exact ⟨rfl, rfl, ⟨h1, h2, h3, h4, h5⟩, ht'⟩
   | tip =>
     simp only [rsBody, specBody]
     rw [rTip_coh src ex o st h1]
